@@ -26,7 +26,7 @@ ClassOf(s, invs, selfhints) ==
   ELSE IF s.meta \notin {"ok", "swapped"} THEN "cont"   \* ("swapped": the amount record precedes the invoice record)
   ELSE IF s.inv = 0 THEN "cont"
   ELSE LET v == invs[s.inv] IN
-       IF v.form \notin {"ok", "noncanon"} THEN "cont"   \* does not parse / bad signature ("noncanon": valid, unusual text)
+       IF v.form \notin {"ok", "noncanon", "nfield"} THEN "cont"   \* does not parse / bad signature ("noncanon": valid, unusual text)
        ELSE IF v.hash # s.hash THEN "cont"     \* invoice is for another payment hash
        ELSE IF AmountOf(s, v) = -1 THEN "cont"
        ELSE IF v.hint /\ ~selfhints THEN "failnode"
